@@ -103,6 +103,11 @@ package federation
 //@   # (the collecting loop is left early only by "return nil" on a successful
 //@   # answer): a remote that fails fast cannot pre-empt an honest one
 //@   at loop 2 exit: assert i >= cap(errchan)
+//@   # ... and the requests still in flight are not cancelled while answers are
+//@   # being collected (only when the function returns)
+//@   ghost cancelled bool = false
+//@   calls cancel#*: set cancelled = true
+//@   loop 2: invariant !cancelled
 
 // ------------------------------------------------------------------- C20
 // splitListRequest: fan-out to several clusters happens only for a pure
@@ -120,6 +125,12 @@ package federation
 //@   calls fn#1: requires (opts.BypassFederation || opts.ForwardedFor != "") && $1 == conn.cluster.ClusterID && $2 == conn.local
 //@   calls fn#2: requires matchAllFilters == nil && $1 == conn.cluster.ClusterID && $2 == conn.local
 //@   calls fn#3: requires len(todoByRemote) == 1 && has(todoByRemote, conn.cluster.ClusterID) && $1 == conn.cluster.ClusterID && $2 == conn.local
+//@   # "cannot be split" is a latch over the filters: one filter that is not a
+//@   # uuid = / uuid in filter is enough, whatever comes after it
+//@   ghost cs0 bool = false
+//@   at assign f#1: set cs0 = cannotSplit
+//@   at loop 1 back: assert cs0 ==> cannotSplit
+//@   at loop 1 back: assert f.Attr != "uuid" || (f.Operator != "=" && f.Operator != "in") ==> cannotSplit
 //@   # nUUIDs (compared with the page size limit) counts every requested UUID
 //@   # that can match at all - all clusters together, one by one
 //@   ghost n0 int = 0
